@@ -236,7 +236,10 @@ def run_shard(spec, rec):
         from hypothesis import strategies as st
         dec = st.tuples(st.booleans(), st.integers(1, 10 ** 15 - 1), st.integers(0, 15)).map(
             lambda t: ('-' if t[0] else '') + format(Decimal(t[1]).scaleb(-t[2]), 'f'))
-        pt = st.tuples(dec, st.sampled_from(DIGITS + [7, 8, 10, -5]), st.sampled_from(FUNCS + ['PCT']))
+        # small and large magnitudes too (15 significant digits are not 15 decimals)
+        tiny = st.tuples(st.booleans(), st.integers(1, 99999), st.integers(8, 22)).map(lambda t: ('-' if t[0] else '') + format(Decimal(t[1]).scaleb(-t[2]), 'f'))
+        big = st.tuples(st.booleans(), st.integers(1, 10 ** 15 - 1)).map(lambda t: ('-' if t[0] else '') + str(t[1]))
+        pt = st.tuples(st.one_of(dec, dec, tiny, big), st.sampled_from(DIGITS + [7, 8, 10, -5]), st.sampled_from(FUNCS + ['PCT', 'PCT']))
 
         def body(p):
             x, n, fn = p
